@@ -131,19 +131,23 @@ impl Msg {
     }
 }
 
-// revision of the election code under test, as selected by the check from the source tree (--rev <ab>:
-// a = vote_request adopts the request's term, b = response() counts a Vote/Ok only for the current term);
-// it is written into every case line (the model runs the same revision) and decides what "counted" means
-// for the stale-vote marker.  `main::probe_rev` determines the same two bits by behaviour.
+// revision of raft.rs under test, as selected by the check from the source tree (--rev <abc>:
+// a = vote_request adopts the request's term, b = response() counts a Vote/Ok only for the current term,
+// c = a leader counts only acknowledgements of its current term);
+// it is written into every case line (the model runs the same revision) and bit b decides what "counted" means
+// for the stale-vote marker.  `main::probe_rev` determines the same three bits by behaviour.
 static REV_VOTE_TERM: std::sync::atomic::AtomicBool = std::sync::atomic::AtomicBool::new(false);
 static REV_VOTE_MATCH: std::sync::atomic::AtomicBool = std::sync::atomic::AtomicBool::new(false);
-pub fn set_rev(vote_term: bool, vote_match: bool) {
+static REV_ACK_TERM: std::sync::atomic::AtomicBool = std::sync::atomic::AtomicBool::new(false);
+pub fn set_rev(vote_term: bool, vote_match: bool, ack_term: bool) {
     REV_VOTE_TERM.store(vote_term, std::sync::atomic::Ordering::Relaxed);
     REV_VOTE_MATCH.store(vote_match, std::sync::atomic::Ordering::Relaxed);
+    REV_ACK_TERM.store(ack_term, std::sync::atomic::Ordering::Relaxed);
 }
 pub fn rev_vote_term() -> bool { REV_VOTE_TERM.load(std::sync::atomic::Ordering::Relaxed) }
 pub fn rev_vote_match() -> bool { REV_VOTE_MATCH.load(std::sync::atomic::Ordering::Relaxed) }
-pub fn rev_str() -> String { format!("{}{}", rev_vote_term() as u8, rev_vote_match() as u8) }
+pub fn rev_ack_term() -> bool { REV_ACK_TERM.load(std::sync::atomic::Ordering::Relaxed) }
+pub fn rev_str() -> String { format!("{}{}{}", rev_vote_term() as u8, rev_vote_match() as u8, rev_ack_term() as u8) }
 
 pub const FACTOR_MS: u64 = 1000;
 pub const HB_MS: u64 = 1000;
